@@ -18,7 +18,7 @@ import (
 func init() {
 	Register(&Monitor{
 		ID: "C17",
-		Rule: "per case a doctype-prefixed tag soup from a vocabulary that triggers the tree builder's insertion modes (tables, lists, formatting elements, select, template, raw-text and RCDATA elements, void elements, svg/math foreign content, stray end tags, attributes incl. xmlns, xmlns:x, prefixed and duplicate ones, comments everywhere incl. after </html>), depth up to 500 and width up to 5000 in the thorough tier -> xsel.ReadHtml; " +
+		Rule: "per case a doctype-prefixed tag soup from a vocabulary that triggers the tree builder's insertion modes (tables, lists, formatting elements, select, template, raw-text and RCDATA elements, void elements, svg/math foreign content, stray end tags, attributes incl. xmlns, xmlns:x, prefixed and duplicate ones, comments everywhere incl. after </html>), depth up to 500 and width up to 5000 in the thorough tier -> xsel.ReadHtml from a reader whose delivery pattern (one Read / pseudo-random chunks / one byte per Read / a Read ending after every '>') is determined by the bytes; " +
 			"oracle: html.Parse on the same bytes walked recursively by the monitor (doctype skipped, local names after the prefix, attributes minus xmlns declarations) compared by parallel walk with the cursor tree plus the C10 structural invariants: same nesting/order, equal text and comment data, every name in no namespace, no namespace nodes, nothing skipped or duplicated. distinct_nontrivial = distinct DOM shape signatures",
 		Assumptions: []string{"names with more than one ':' are not generated (prefix stripping is then ambiguous)", "golang.org/x/net/html is the definition of the HTML5 tree (as the property states)"},
 		NCases:      func(tier string) int { return map[string]int{"quick": 200000, "thorough": 2000000}[tier] },
@@ -119,7 +119,8 @@ func safeReadHtml(b []byte) (c xsel.Cursor, err error) {
 			c, err = nil, fmt.Errorf("PANIC escaped ReadHtml: %v", p)
 		}
 	}()
-	return xsel.ReadHtml(bytes.NewReader(b))
+	rd, _ := hostileReader(b, contentMode(b)) // whole / chunks / single bytes / Reads ending after '>' — determined by the content
+	return xsel.ReadHtml(rd)
 }
 
 func c17Case(r *evid.Run, tier string, idx int, g *rng.R) {
